@@ -603,6 +603,10 @@ def mode_specs():
         out.append(('S', [C(1, [('S', [m(plain)]), E, ('S', [m(cond), ('F', -1.0, 1.0, ('g',), None)])], False, False, 'o')]))
         out.append(('S', [m([('S', [C(2, [E, E, E], dist, srt, 'i')])] + plain[1:]), ('F', 0.0, 2.0, ('h',), None)]))
   out.append(('S', []))
+  # custom decision points (no random_dna_fn: Uniform mutation of such a node raises NotImplementedError; recombinators carry the strings)
+  X = lambda loc: ('X', (loc,), None)
+  out.append(('S', [X('c'), C(1, [E, E, E], False, False, 'a')]))
+  out.append(('S', [C(1, [('S', [X('c')]), E, ('S', [X('d'), ('F', 0.0, 1.0, ('f',), None)])], False, False, 'a'), C(2, [E, E, E], True, False, 'm')]))
   out.append(('S', [('F', 0.0, 3.0, ('a',), None), ('F', -2.0, 2.0, ('b',), None)]))
   out.append(('S', [C(1, [innerf, ('S', [('F', 1.0, 4.0, ('f',), None), C(1, [E, E], True, False, 'r')]), E], False, False, 'a')]))
   return out
@@ -778,7 +782,10 @@ def run(ctx):
   ctx.build()
   rng = ctx.rng
   cases = []
+  def has_custom(s):
+    return any(p[0] == 'X' or (p[0] == 'C' and any(has_custom(c) for c in p[2])) for p in s[1])
   def add(kind, s, expr, pop, seed=None):
+    if has_custom(s): kind = 'oracle-only/custom-points/' + kind      # random_dna_fn is user code: such spaces go to the oracle only
     cases.append(dict(kind=kind, spec=s, expr=expr, pop=pop, seed=rng.randint(0, 10 ** 6) if seed is None else seed))
   for name, s, expr, pop, seed in CORPUS:
     add('corpus:' + name, s, expr, pop, seed)
@@ -786,7 +793,9 @@ def run(ctx):
   sels, muts, recs, recs2 = prim_catalog()
   fam = [('mode', s) for s in mode_specs()]
   fam += [('perm', perm_specs(rng)) for _ in range(ctx.scale(10, 60))]
-  fam += [('random', no_custom(G.random_spec(rng, budget=rng.randint(1, 7), d=3, allow_inf=True))) for _ in range(ctx.scale(25, 400))]
+  for _ in range(ctx.scale(25, 400)):
+    sp = G.random_spec(rng, budget=rng.randint(1, 7), d=3, allow_inf=True)
+    fam.append(('random', sp if rng.random() < 0.3 else no_custom(sp)))     # custom decision points (no random_dna_fn) in some
   per = ctx.scale(3, 12)
   for fk, s in fam:
     for p in rng.sample(muts, min(len(muts), per)):
